@@ -567,6 +567,14 @@ func runC19(w *World) *Result {
 						}
 					}
 				}
+				// handed to the caller as it is (return os.WriteFile(…)): judged at the callers
+				if !checked && errVal != nil && errVal.Referrers() != nil {
+					for _, ref := range *errVal.Referrers() {
+						if ret, ok := ref.(*ssa.Return); ok && callersExitOnError(ret.Parent(), 0) {
+							checked = true
+						}
+					}
+				}
 				if checked {
 					r.Ok("R-C19-errors", key, w.Pos(c.Pos()), "error is tested and the error branch ends in panic / non-zero exit")
 				} else {
@@ -751,7 +759,9 @@ func leadsToExit(b *ssa.BasicBlock) bool {
 					return true
 				}
 			case *ssa.Return:
-				return false
+				// a helper of the command that hands the error to callers which all end the
+				// command on it
+				return errorReturnedToExit(x, 0)
 			}
 		}
 		if len(b.Succs) == 0 {
@@ -765,6 +775,103 @@ func leadsToExit(b *ssa.BasicBlock) bool {
 		return true
 	}
 	return rec(b, 0)
+}
+
+// errorReturnedToExit: ret returns, as its last result, an error that is not the nil constant,
+// from a function that is only called (never used as a value), and every call site tests that
+// result with an error branch that ends the command (or hands it on the same way).
+func errorReturnedToExit(ret *ssa.Return, depth int) bool {
+	fn := ret.Parent()
+	if depth > 3 || len(ret.Results) == 0 || fn == nil || fn.Pkg == nil {
+		return false
+	}
+	last := ret.Results[len(ret.Results)-1]
+	if !isErrorType(last.Type()) {
+		return false
+	}
+	if k, ok := last.(*ssa.Const); ok && k.IsNil() {
+		return false
+	}
+	return callersExitOnError(fn, depth)
+}
+
+// callersExitOnError: every static call of fn is followed by a test of its error result whose
+// error side ends the command; fn is not used as a value.
+func callersExitOnError(fn *ssa.Function, depth int) bool {
+	if depth > 3 || fn.Pkg == nil {
+		return false
+	}
+	ri := fn.Signature.Results().Len() - 1
+	if ri < 0 || !isErrorType(fn.Signature.Results().At(ri).Type()) {
+		return false
+	}
+	n := 0
+	for _, m := range fn.Pkg.Members {
+		g, ok := m.(*ssa.Function)
+		if !ok {
+			continue
+		}
+		for _, h := range withLiterals(g) {
+			for _, b := range h.Blocks {
+				for _, ins := range b.Instrs {
+					for _, op := range ins.Operands(nil) {
+						if op != nil && *op == ssa.Value(fn) {
+							if c, ok := ins.(*ssa.Call); !ok || c.Call.Value != ssa.Value(fn) {
+								return false
+							}
+						}
+					}
+					c, ok := ins.(*ssa.Call)
+					if !ok || c.Call.StaticCallee() != fn {
+						continue
+					}
+					n++
+					var errVal ssa.Value = c
+					if ri > 0 {
+						errVal = nil
+						for _, ref := range *c.Referrers() {
+							if ex, ok := ref.(*ssa.Extract); ok && ex.Index == ri {
+								errVal = ex
+							}
+						}
+					}
+					if errVal == nil || errVal.Referrers() == nil {
+						return false
+					}
+					handled := false
+					for _, ref := range *errVal.Referrers() {
+						switch x := ref.(type) {
+						case *ssa.BinOp:
+							if x.Op != token.NEQ && x.Op != token.EQL {
+								continue
+							}
+							for _, r3 := range *x.Referrers() {
+								ifi, ok := r3.(*ssa.If)
+								if !ok {
+									continue
+								}
+								errB := ifi.Block().Succs[0]
+								if x.Op == token.EQL {
+									errB = ifi.Block().Succs[1]
+								}
+								if leadsToExit(errB) {
+									handled = true
+								}
+							}
+						case *ssa.Return:
+							if callersExitOnError(x.Parent(), depth+1) {
+								handled = true
+							}
+						}
+					}
+					if !handled {
+						return false
+					}
+				}
+			}
+		}
+	}
+	return n > 0
 }
 
 // backwardThroughFields: like backward, but follows struct fields of the options
